@@ -180,6 +180,8 @@ def generate(rs: int, tier: str, index: int) -> dict:
                       "extra_op": ch.below(6), "reach": _reach(ch.sub("r")), "other_options": _other(ch.sub("oo"))})
         if ch.sub("abort").chance(0.15):
             steps[-1]["abort_first"] = ch.sub("abort").below(100000)
+        if ch.sub("busy").chance(0.1):
+            steps[-1]["interleave"] = ch.sub("busy").below(100000)
         if ch.sub("thread").chance(0.12):
             steps[-1]["in_thread"] = True  # the comparisons are evaluated by a thread started while the sort options are in force
         if kind != "plain" and mode == 4 and ch.sub("same").chance(0.6):
@@ -256,6 +258,34 @@ class reach_options:
     def __exit__(self, *exc: Any) -> None:
         while self.stack:
             self.stack.pop().__exit__(None, None, None)
+
+
+class selected_while_busy:
+    """The sort setting is selected (by "this" thread) while a comparison begun earlier (by another thread, under the
+    options of that moment) is still under way: the selection is made at executed line k of that comparison, which then
+    runs to its end.  A comparison has no business writing options, so the selection stands."""
+
+    def __init__(self, ctx: reach_options, k: int, busy) -> None:
+        self.ctx, self.k, self.busy = ctx, k, busy
+        self.entered = False
+
+    def _enter(self) -> None:
+        self.ctx.__enter__()
+        self.entered = True
+
+    def __enter__(self) -> None:
+        tracer = seams.LineTracer(NUMPOLY_DIR, k=self.k, action=self._enter)
+        try:
+            tracer.run(self.busy)
+        except core.HarnessError:
+            raise
+        except Exception:  # noqa: BLE001
+            pass
+        if not self.entered:
+            self._enter()
+
+    def __exit__(self, *exc: Any) -> None:
+        self.ctx.__exit__(None, None, None)
 
 
 class Runner:
@@ -374,7 +404,11 @@ class Runner:
             want = numpy.array([0 if is_complex else model.compare_elements(x, y, g, r) for x, y in zip(el_l, el_r)], dtype=int).reshape(shape)
             eq_want = numpy.array([self._el_equal(x, y) for x, y in zip(el_l, el_r)], dtype=bool).reshape(shape)
             where = {"graded": g, "reverse": r, "policy": pol}
-            with seams.Env(core.H(self.rs, pol, g, r), sort=pol, fill="a5") as env, reach_options(step.get("reach", "direct"), g, r, step.get("other_options")):
+            selection: Any = reach_options(step.get("reach", "direct"), g, r, step.get("other_options"))
+            if step.get("interleave") is not None:
+                selection = selected_while_busy(selection, 1 + step["interleave"] % 120, lambda: operator.lt(left, right))
+                self.bump("probe:selection_made_while_a_comparison_is_under_way")
+            with seams.Env(core.H(self.rs, pol, g, r), sort=pol, fill="a5") as env, selection:
                 env.begin_step(sid)
                 got: Dict[str, Any] = {}
                 spellings: Dict[str, Any] = {}
@@ -562,8 +596,9 @@ def simplify(plan: dict):
         if step["k"] == "pair":
             if step.get("rewrite"):
                 yield dict(plan, steps=[{k: v for k, v in step.items() if k != "rewrite"}])
-            if step.get("abort_first") is not None:
-                yield dict(plan, steps=[{k: v for k, v in step.items() if k != "abort_first"}])
+            for key in ("abort_first", "interleave", "in_thread", "same_object"):
+                if step.get(key) is not None and step.get(key) is not False:
+                    yield dict(plan, steps=[{k: v for k, v in step.items() if k != key}])
             for key in ("a", "b"):
                 v = step[key]
                 if (step.get("rewrite") or {}).get("which") == key:
